@@ -1,7 +1,7 @@
 (** C08 - nodes are content-addressed and deterministically encoded.
     Statements only; proofs are in Persist.v. *)
 From Coq Require Import List NArith ZArith Bool.
-From Mast Require Import Prim Key Tree KeyOrder Codec Store Diff World Erase Build Spec Canon Level Inv Hist Persist.
+From Mast Require Import Prim Key Tree KeyOrder Codec Store Diff World Erase Build Spec Canon Links Level Inv Hist Persist Events Reload Merkle WorldInv MerkleHist.
 Import ListNotations.
 
 (** every Store issued by persisting any tree (any residency mix, either format) is under the name
@@ -9,6 +9,23 @@ Import ListNotations.
 Theorem C08_store_events_named : forall fuel f n, fits key val fuel n ->
   okf store_named (store_node fuel f n) (fun r => n_src _ _ (snd r) = Some (fst r)).
 Proof. exact store_node_named. Qed.
+
+(** ... unconditionally and whatever the outcome of the persist (success, error, mid-way failure):
+    every Store event of MakeRoot is under the name of its bytes *)
+Theorem C08_every_write_named : forall f (m : kmast), evb store_named (make_root f m).
+Proof. exact make_root_evn. Qed.
+
+(** hence every store of every reachable world holds each node under the name of its bytes *)
+Theorem C08_reachable_stores_content_addressed : forall ops, conds empty_world ([], []) ops -> waddr (wrun empty_world ops).
+Proof. intros ops C. exact (wrun_waddr ops empty_world (conds_no_corrupt _ _ _ C) waddr_empty). Qed.
+
+(** and the name a persist returns is the Merkle name of the tree: a function of its keys, values
+    and shape only (not of flags, sources, or which nodes were in memory) *)
+Theorem C08_persist_returns_merkle_name : forall f s kind, addressed s -> forall fuel (n : knode), allh key val (sto f s kind) n ->
+  okp (store_node fuel f n) (fun r => fst r = mname f n /\ mname f (snd r) = mname f n).
+Proof. exact store_node_mname. Qed.
+Theorem C08_merkle_name_ignores_residency : forall f (n : knode), mname f (erase_n _ _ n) = mname f n.
+Proof. exact mname_erase. Qed.
 
 (** the bytes are a function of the node's keys, values and child names alone: flags, capacities
     and the kind of the links do not occur in them *)
@@ -32,6 +49,10 @@ Proof. exact name_tv. Qed.
 (** PARTIAL: "same root name => same contents" needs collision freeness of BLAKE2b-256, which is a
     stated hypothesis and not provable. *)
 Print Assumptions C08_store_events_named.
+Print Assumptions C08_every_write_named.
+Print Assumptions C08_reachable_stores_content_addressed.
+Print Assumptions C08_persist_returns_merkle_name.
+Print Assumptions C08_merkle_name_ignores_residency.
 Print Assumptions C08_bytes_function_of_contents.
 Print Assumptions C08_name_keeps_bytes.
 Print Assumptions C08_name_vector.
